@@ -249,6 +249,12 @@ def main(run: core.Run, only=None):
     for method in ("nearsquare", "rectangle"):
         for n in range(1, 5):
             chunks.append({"fam": "A7", "method": method, "n": n})
+    # the RowWise search with both flow specifications (its candidates are generated inside the search, field by field)
+    rw_geo = {"property_boundary": [[2.0, 3.0], [42.0, 3.0], [42.0, 28.0], [2.0, 28.0]], "no_go_boundaries": [], "min_spacing": 5.0, "max_spacing": 12.0, "spacing_step": 0.5,
+              "min_rotation": -90.0, "max_rotation": 0.0, "rotate_step": 30.0, "perimeter_spacing_ratio": None}
+    for c0 in range(1, 56, 4 if not quick else 12):
+        for flow, rate in (("system", 2.5), ("borehole", 0.5)):
+            chunks.append({"fam": "A6", "method": "rowwise", "geo": rw_geo, "nmax": 54, "c0": c0, "cn": 4, "flow": flow, "flow_rate": rate})
     run.drive(chunks, family="searches")
     return run.finish(
         rule="arithmetic: every N in 1..400 x 4 flows x 4 fluids x 4 search classes; objects: real GHE pairs over N x flow x fluid x pipe; "
